@@ -504,29 +504,20 @@ func TestD9PlaygroundSparsePreTrust(t *testing.T) {
 }
 
 // ---- D10 (C15/C19) ----
-var cliOnce sync.Once
-var cliPath string
-
+// buildCLI builds the CLI from /repo's working tree (through this module's replace directive).
 func buildCLI(t *testing.T) string {
-	cliOnce.Do(func() {
-		dir, err := os.MkdirTemp("", "verif-cli-")
-		if err != nil {
-			t.Fatal(err)
-		}
-		cliPath = filepath.Join(dir, "eigentrust")
-		cmd := exec.Command("go", "build", "-o", cliPath, "./cmd/eigentrust")
-		cmd.Dir = "/repo"
-		cmd.Env = append(os.Environ(), "GOFLAGS=-mod=mod", "GOPROXY=off", "GOSUMDB=off", "GOTOOLCHAIN=local")
-		if out, err := cmd.CombinedOutput(); err != nil {
-			t.Fatalf("go build: %v\n%s", err, out)
-		}
-	})
-	return cliPath
+	t.Helper()
+	bin := filepath.Join(t.TempDir(), "eigentrust")
+	cmd := exec.Command("go", "build", "-o", bin, "k3l.io/go-eigentrust/cmd/eigentrust")
+	cmd.Env = append(os.Environ(), "GOFLAGS=-mod=mod", "GOPROXY=off", "GOSUMDB=off", "GOTOOLCHAIN=local")
+	if out, err := cmd.CombinedOutput(); err != nil {
+		t.Fatalf("go build: %v\n%s", err, out)
+	}
+	return bin
 }
 
 func TestD10CliShortRecords(t *testing.T) {
 	cli := buildCLI(t)
-	defer os.RemoveAll(filepath.Dir(cli))
 	dir := t.TempDir()
 	lt := filepath.Join(dir, "lt.csv")
 	pt := filepath.Join(dir, "pt.csv")
